@@ -76,6 +76,65 @@ func exemptAt(ex []exemption, e *entry, at int) int {
 
 const tooLongWindow = "too-long-position-persisted-before-callback"
 
+// chanOwed says from which channel pts on entries are owed, and since when.
+//
+// A channel in the initial storage is owed from its stored pts, always. A
+// channel first seen during the run is owed from the position the library
+// started it at (pts - pts_count of the first update it saw: that very update
+// and everything later; history before first sight is not owed). It becomes
+// owed at trace index `since`: the first main-loop storage write after the
+// library looked the channel up (GetChannelPts in handleChannel). The library is
+// expected to make exactly that write the channel's own SetChannelPts, so that
+// from then on the persistent image tracks the channel. Never seen => since<0.
+type chanOwed struct {
+	from  int
+	since int
+	late  bool
+}
+
+func (r *run) chanOwed(trace []tev) map[int64]chanOwed {
+	out := map[int64]chanOwed{}
+	for _, ch := range r.sc.Chans {
+		if !ch.Late {
+			out[ch.ID] = chanOwed{from: ch.S0, since: 0}
+			continue
+		}
+		o := chanOwed{since: -1, late: true}
+		read, from := -1, -1
+		for _, t := range trace {
+			switch {
+			case t.T == "chread" && t.Ch == ch.ID && read < 0:
+				read = t.I
+			case read >= 0 && o.since < 0 && t.T == "write" && (t.W != "SetChannelPts" || t.Ch == ch.ID):
+				o.since = t.I
+			}
+			if from < 0 && t.Ch == ch.ID && ((t.T == "write" && t.W == "SetChannelPts") || t.T == "chdiff") {
+				// the first position the library holds for the channel
+				if t.T == "chdiff" {
+					from = t.ReqPts
+				} else {
+					from = t.Pts
+				}
+			}
+		}
+		if from < 0 {
+			o.since = -1
+		}
+		o.from = from
+		out[ch.ID] = o
+	}
+	return out
+}
+
+// owedAt: is channel entry e owed to the handler at trace index at?
+func owedAt(co map[int64]chanOwed, e *entry, at int) bool {
+	if e.Cls != clsChan {
+		return true
+	}
+	o := co[e.Ch]
+	return o.since >= 0 && o.since <= at && e.End > o.from
+}
+
 // offered tells through which response part an entry was handed to the library
 // in trace[:upto] (most specific wins).
 func offered(trace []tev, e *entry, upto int) string {
@@ -234,6 +293,7 @@ func (r *run) checkC01() (out []finding, stats map[string]int) {
 
 type c02stats struct {
 	owed, exempt, delivered    int
+	notOwed, lateOwed          int // entries of a channel never seen / before first sight; owed entries of first-seen channels
 	viaPush                    int
 	recoveredMsg, recoveredOth int // delivered entries that a difference had to carry (never applied from a push)
 	respTypes                  map[string]bool
@@ -262,8 +322,16 @@ func (r *run) checkC02() (out []finding, st c02stats) {
 			st.respTypes[t.T+":"+t.Resp] = true
 		}
 	}
+	co := r.chanOwed(r.trace)
 	for _, e := range r.sc.entries {
+		if !owedAt(co, e, end) {
+			st.notOwed++
+			continue
+		}
 		st.owed++
+		if co[e.Ch].late {
+			st.lateOwed++
+		}
 		if _, ok := del[e.UID]; ok {
 			st.delivered++
 			continue
@@ -316,10 +384,14 @@ func (r *run) checkC03() (out []finding, writes int) {
 	ex := exemptions(r.trace)
 	del := map[int]bool{}
 	reported := map[string]bool{}
+	co := r.chanOwed(r.trace)
 	check := func(w tev, key string, pos int) {
 		for _, e := range r.sc.entries {
 			if e.seqKey() != key || e.End > pos || del[e.UID] {
 				continue
+			}
+			if e.Cls == clsChan && e.End <= co[e.Ch].from {
+				continue // history before the channel was first seen
 			}
 			x := exemptAt(ex, e, w.I)
 			if x == 2 {
@@ -414,12 +486,16 @@ func (r *run) restartCheck(t int, seed uint64) (out []finding, r2 *run) {
 	ex2 := exemptions(r2.trace)
 	d1 := deliveredSet(r.trace[:t])
 	d2 := deliveredSet(r2.trace)
+	co := r.chanOwed(r.trace)
 	for _, e := range r.sc.entries {
 		if _, ok := d1[e.UID]; ok {
 			continue
 		}
 		if _, ok := d2[e.UID]; ok {
 			continue
+		}
+		if !owedAt(co, e, t) {
+			continue // channel not (yet) taken on by the library at the crash point
 		}
 		x1 := exemptAt(ex1, e, t+1)
 		if x1 == 2 || exemptAt(ex2, e, len(r2.trace)) == 2 {
@@ -436,7 +512,12 @@ func (r *run) restartCheck(t int, seed uint64) (out []finding, r2 *run) {
 			imagePos = snap.Ch[e.Ch]
 		}
 		sig := fmt.Sprintf("restart-lost|%s|image-covers-undelivered-entry", e.Cls)
+		_, inImage := snap.Ch[e.Ch]
 		switch {
+		case e.Cls == clsChan && !inImage:
+			// the library had taken the channel on, yet the image does not know it:
+			// the restarted manager never asks for its difference
+			sig = "restart-lost|channel-pts|first-seen-channel-missing-from-image"
 		case e.End > imagePos:
 			sig = fmt.Sprintf("restart-lost|%s|lost-in-restart-recovery|last-offered-in=%s", e.Cls, offered(r2.trace, e, len(r2.trace)))
 		case x1 == 1:
